@@ -316,3 +316,79 @@ Proof.
   inversion Hc; subst. destruct (exec1 rows c e) as [e1|] eqn:E1; [|exfalso; eapply exec1_total_all; eassumption].
   apply IH; [eapply exec1_inv; eassumption|assumption].
 Qed.
+
+(* ---------- >> and << with a count ---------- *)
+Lemma shift_line_wf right l : line_wf l -> line_wf (shift_line right l).
+Proof.
+  intros (body & -> & Hb). unfold shift_line. destruct right.
+  - destruct body as [|c body']; cbn [app]; [exists []; split; [reflexivity|constructor]|].
+    inversion Hb; subst. unfold is_nlb. destruct (N.eqb_spec (b0 c) 10); [contradiction|].
+    exists ([9%N] :: c :: body'). split; [reflexivity|]. constructor; [cbn; lia|exact Hb].
+  - destruct body as [|c body']; cbn [app].
+    + change (is_blankc [10%N]) with false. cbv iota. exists []. split; [reflexivity|constructor].
+    + destruct (is_blankc c); [inversion Hb; subst; exists body'; auto|exists (c :: body'); auto].
+Qed.
+Lemma shift_rows_map right : forall (x : buf) (pre post : buf), buf_wf x ->
+  shift_rows right (length x) (Z.of_nat (length pre)) (pre ++ x ++ post) = pre ++ map (shift_line right) x ++ post.
+Proof.
+  induction x as [|l x IH]; intros pre post Hx; cbn [length shift_rows map app]; [reflexivity|].
+  inversion Hx; subst.
+  assert (G : getl (pre ++ l :: x ++ post) (Z.of_nat (length pre)) = Some l).
+  { rewrite getl_app_r by lia. rewrite Z.sub_diag. reflexivity. }
+  rewrite G.
+  replace (Z.of_nat (length pre) + 1) with (Z.of_nat (length pre) + Z.of_nat (@length line [l])) by (cbn [length]; lia).
+  rewrite lbuf_edit_some by (try lia; rewrite !blen_app; unfold blen; cbn [length]; lia).
+  rewrite (split_text_line _ (shift_line_wf right l ltac:(assumption))).
+  change (pre ++ l :: x ++ post) with (pre ++ [l] ++ (x ++ post)). rewrite set_row_decomp.
+  rewrite (app_assoc pre _ (x ++ post)).
+  match goal with |- context [shift_rows _ _ _ (?p ++ x ++ post)] =>
+    replace (Z.of_nat (length pre) + Z.of_nat (length [l])) with (Z.of_nat (length p)) by (rewrite app_length; cbn [length]; lia);
+    rewrite (IH p post) by assumption end.
+  rewrite <- app_assoc. reflexivity.
+Qed.
+
+Lemma shift_rows_range right (b : buf) r1 r2 : buf_wf b -> 0 <= r1 <= r2 -> r2 < blen b ->
+  shift_rows right (Z.to_nat (r2 - r1 + 1)) r1 b =
+  firstn (Z.to_nat r1) b ++ map (shift_line right) (rows_between b r1 (r2 + 1)) ++ skipn (Z.to_nat (r2 + 1)) b.
+Proof.
+  intros HW H1 H2. destruct (range_split b r1 r2 H1 H2) as (pre & x & post & -> & Lp & Lx).
+  apply buf_wf_app in HW. destruct HW as [_ HW]. apply buf_wf_app in HW. destruct HW as [HWx _].
+  subst r1. replace (Z.to_nat (r2 - Z.of_nat (length pre) + 1)) with (length x) by lia.
+  rewrite shift_rows_map by exact HWx.
+  replace (r2 + 1) with (Z.of_nat (length pre) + Z.of_nat (length x)) by lia. rewrite rows_between_decomp.
+  rewrite Nat2Z.id, firstn_app_exact. f_equal. f_equal.
+  replace (Z.to_nat (Z.of_nat (length pre) + Z.of_nat (length x))) with (length (pre ++ x)) by (rewrite app_length; lia).
+  rewrite app_assoc, skipn_app_exact. reflexivity.
+Qed.
+
+Lemma refines_shift rows e (right : bool) cnt e1 l0 :
+  let b := s_buf e in let s := s_vs e in
+  buf_wf b -> cursor_ok b (v_row s) (v_off s) -> getl b (v_row s) = Some l0 -> 0 <= cnt ->
+  exec1 rows (COp 0%N cnt (if right then Ogt else Olt) 0 TDbl []) e = Some e1 ->
+  let r2 := Z.min (v_row s + Z.max 1 cnt - 1) (blen b - 1) in
+  let b' := firstn (Z.to_nat (v_row s)) b ++ map (shift_line right) (rows_between b (v_row s) (r2 + 1)) ++ skipn (Z.to_nat (r2 + 1)) b in
+  s_buf e1 = b' /\ s_regs e1 = s_regs e /\ v_row (s_vs e1) = v_row s /\
+  v_off (s_vs e1) = ren_noeol (getl b' (v_row s)) (lbuf_indents b' (v_row s)).
+Proof.
+  intros b s HW Hc El Hn X r2 b'.
+  assert (Hr : 0 <= v_row s < blen b) by (apply getl_some in El; lia).
+  assert (Ecnt : (if cnt =? 0 then 1 else cnt) * (if 0 =? 0 then 1 else 0) = Z.max 1 cnt) by (destruct (Z.eqb_spec cnt 0); cbn; lia).
+  set (o1 := ren_noeol (getl b (v_row s)) (v_off s)).
+  assert (T : op_target b rows s cnt 0 TDbl o1 = TOk Kunder r2 (-1) (v_cl s) (v_cc s) (v_pcol s)).
+  { unfold op_target. rewrite Ecnt. fold r2. destruct (Z.ltb_spec r2 0); [unfold r2 in *; lia|]. reflexivity. }
+  cbn [exec1] in X. unfold exec_op in X. fold b s o1 in X. rewrite T in X.
+  change (v_row (vs_mot s (v_cl s) (v_cc s) (v_pcol s))) with (v_row s) in X.
+  destruct (vc_region_line b Kunder (v_row s) o1 r2 (-1) ltac:(lia)) as (G1 & G2 & G3).
+  set (g := vc_region b Kunder (v_row s) o1 r2 (-1)) in *.
+  assert (Hr2 : v_row s <= r2 < blen b) by (unfold r2; lia).
+  rewrite Z.min_l in G2 by lia. rewrite Z.max_r in G3 by lia.
+  assert (EB : shift_rows right (Z.to_nat (g_r2 g - g_r1 g + 1)) (g_r1 g) b = b').
+  { rewrite G2, G3. apply shift_rows_range; [exact HW|lia|lia]. }
+  assert (XX : e1 = finish rows b' (s_regs e) (vs_pos (vs_mot s (v_cl s) (v_cc s) (v_pcol s)) (v_row s) (lbuf_indents b' (v_row s))) true).
+  { destruct right; unfold vi_shift in X; rewrite EB, G2 in X; inversion X; reflexivity. }
+  subst e1. set (st := vs_pos _ _ _).
+  assert (Hb' : blen b' = blen b).
+  { unfold b', blen, rows_between in *. rewrite !app_length, map_length, !firstn_length, !skipn_length. lia. }
+  assert (Hrow : 0 <= v_row st < blen b') by (unfold st; cbn [vs_pos v_row]; lia).
+  rewrite finish_buf, finish_regs, finish_row, finish_off by exact Hrow. unfold st. cbn [vs_pos v_row v_off]. repeat split; reflexivity.
+Qed.
